@@ -1,18 +1,27 @@
-"""Per-property configuration of the ./check driver.
+"""Per-property configuration of the ./check driver, discovered from
+harness/checks/*/check.json (one file per property, owned by that check).
 
-parts[tier] is a list of runs of the check's test binary; each may be built
-with the race detector and selects a portion of the workload via VERIF_PART.
+check.json keys:
+  id, level, technique, level_text, level_note
+  parts: {"quick": [part...], "thorough": [part...]}; part = {"name": str,
+         "race": bool, "timeout": seconds, "env": {..}} — one run of the test
+         binary each; VERIF_PART=<name> selects the portion of the workload.
 """
+import glob, json, os
 
-def P(name="all", race=False, timeout=900, env=None):
-    return {"name": name, "race": race, "timeout": timeout, "env": env or {}}
+ROOT = os.path.dirname(os.path.abspath(__file__))
+CHECKS = {}
+for f in sorted(glob.glob(os.path.join(ROOT, "harness", "checks", "*", "check.json"))):
+    c = json.load(open(f))
+    c["pkg"] = "checks/" + os.path.basename(os.path.dirname(f))
+    for tier in ("quick", "thorough"):
+        for p in c["parts"][tier]:
+            p.setdefault("race", False)
+            p.setdefault("timeout", 900)
+            p.setdefault("env", {})
+    if c.get("enabled", True):
+        CHECKS[c["id"]] = c
 
-CHECKS = {
-    "C08": {"pkg": "checks/c08", "level": "exploration",
-            "technique": "runtime invariant monitor after every pool operation over seeded random histories",
-            "level_text": "Held on the explored histories: every clause of the statement (uniqueness, capacity, ordering, lowest-priority eviction, per-payer solvency incl. notary depositors, no pooled Conflicts pair, one response per oracle id, failed Add leaves all observables unchanged, no panic) is evaluated through the exported API after every operation of thousands of seeded Add/Remove/RemoveStale sequences built to make ties, near-balance payers and conflict chains common. Exploration is the right level: the state space is unbounded and the oracle is exact for each visited state.",
-            "level_note": "Trusts the exported getters to reflect the pool; balances change only at RemoveStale as on a node; no concurrency (the property quantifies over histories).",
-            "parts": {"quick": [P(timeout=600)], "thorough": [P(timeout=3000)]}},
-}
-
+# Properties deliberately not claimed (with the reason); anything else that has
+# no check.json yet is listed by tools/gen_manifest.py as "not built yet".
 NOT_APPLICABLE = {}
